@@ -48,8 +48,17 @@ pub const ZEROW: &[char] = &['\u{200b}', '\u{200d}', '\u{ad}', '\u{feff}', '\u{1
 pub const C0DEL: &[char] =
     &['\u{7}', '\u{8}', '\u{9}', '\u{a}', '\u{d}', '\u{18}', '\u{1a}', '\u{7f}', '\u{1}', '\u{85}'];
 
+/// code points at the edges of every range the code distinguishes (charset tables end at 255,
+/// C1, surrogates' neighbours, planes, the last scalar value)
+pub const BOUNDARY: &[char] = &[
+    '\u{7e}', '\u{7f}', '\u{80}', '\u{9f}', '\u{a0}', '\u{fe}', '\u{ff}', '\u{100}', '\u{101}', '\u{17f}',
+    '\u{7ff}', '\u{800}', '\u{d7ff}', '\u{e000}', '\u{fffd}', '\u{fffe}', '\u{ffff}', '\u{10000}',
+    '\u{1ffff}', '\u{e0001}', '\u{10ffff}',
+];
+
 pub fn text_char(r: &mut Rng) -> char {
-    match r.below(20) {
+    match r.below(22) {
+        20 | 21 => *r.pick(BOUNDARY),
         0..=10 => *r.pick(NARROW),
         11..=13 => *r.pick(WIDE),
         14..=16 => *r.pick(COMBINING),
@@ -282,19 +291,42 @@ pub fn call(r: &mut Rng, cols: u32, lines: u32, focus: &str) -> Call {
     }
 }
 
+thread_local! {
+    /// zero-padding width for the numeric parameters of the sequence being rendered (0 = none)
+    static PAD: std::cell::Cell<usize> = std::cell::Cell::new(0);
+}
+
+fn num(v: u32) -> String {
+    let w = PAD.with(|p| p.get());
+    if w == 0 {
+        v.to_string()
+    } else {
+        format!("{:0w$}", v, w = w)
+    }
+}
+
 fn ps(o: &O) -> String {
     match o {
-        Some(v) => v.to_string(),
+        Some(v) => num(*v),
         None => String::new(),
     }
 }
 
 fn join(v: &[u32]) -> String {
-    v.iter().map(|x| x.to_string()).collect::<Vec<_>>().join(";")
+    v.iter().map(|x| num(*x)).collect::<Vec<_>>().join(";")
 }
 
 /// The escape-sequence spelling of a call, when it has one.
 pub fn render(r: &mut Rng, c: &Call) -> Option<String> {
+    // one sequence in ten spells its numbers with leading zeros (`CSI 00001 M`, `CSI 0000000002;05 r`)
+    let w = if r.chance(1, 10) { *r.pick(&[2usize, 3, 4, 5, 6, 10, 25]) } else { 0 };
+    PAD.with(|p| p.set(w));
+    let out = render0(r, c);
+    PAD.with(|p| p.set(0));
+    out
+}
+
+fn render0(r: &mut Rng, c: &Call) -> Option<String> {
     use Call::*;
     let csi = if r.chance(4, 5) { "\x1b[" } else { "\u{9b}" };
     let f1 = |o: &O, fin: &str| Some(format!("{}{}{}", csi, ps(o), fin));
@@ -381,7 +413,7 @@ pub fn garbage(r: &mut Rng) -> String {
         "d", "A", "B", "C", "D", "E", "F", "g", "c", "\x08", "\t", "\n", "\r", "\x0e", "\x0f", "a",
         "中", "\u{301}", "\u{200b}", "\u{80}", "\u{90}", "\u{9f}", "\u{85}", "\x7f", "\0", "R", "P",
         "p", "0;", "2;", "1;", "10;", "[", "]", "8", "7", "c", "Z", "=", "<", "\x1b[?", "\x1b[38;5;",
-        "\x1b[3", "5", "2",
+        "\x1b[3", "5", "2", "\x1b%@", "\x1b%G", "\x1b%8", "\u{e9}", "\u{100}",
     ];
     let n = r.range(1, 8);
     let mut s = String::new();
@@ -410,7 +442,8 @@ pub fn utf8_garbage(r: &mut Rng) -> Vec<u8> {
         b"\xe0\x80\x80", b"\xe0\x9f\xbf", b"\xed\xa0\x80", b"\xed\xbf\xbf", b"\xf4\x90\x80\x80",
         b"\xf5", b"\xff", b"\xfe", b"\xef\xbb\xbf", b"\xf8\x88\x80\x80\x80", b"\xe2\x9e", b"\x9c",
         b"\x1b[", b"1;2H", b"\x1b]0;t\x07", b"\xc2\x9b", b"\xc2\x9d", b"\xc2\x9c", b"\xcc\x81",
-        b"\x0e", b"\x0f", b"\n", b"\r",
+        b"\x0e", b"\x0f", b"\n", b"\r", b"\x1b%@", b"\x1b%G", b"\x1b%8", b"\xff\xfe", b"\xfe\xff",
+        b"\xc4\x80", b"\xc3\xbf", b"\xef\xbb\xbfA",
     ];
     let n = r.range(1, 6);
     let mut v = vec![];
